@@ -172,7 +172,7 @@ func c09Result(c *core.Ctx, r *core.Reporter) {
 				case *ast.ReturnStmt:
 					direct = true
 				case *ast.CallExpr:
-					if f := core.CalleeObj(info, s); f != nil && (f.Name() == "sendOneResultAndClose") {
+					if f := core.CalleeObj(info, s); f != nil && (core.N(f) == "sendOneResultAndClose") {
 						direct = true
 					}
 					if id, ok := s.Fun.(*ast.Ident); ok && id.Name == "send" {
